@@ -1,5 +1,6 @@
 mod mgr;
 mod leak;
+mod atrest;
 mod store;
 mod world;
 
@@ -10,6 +11,7 @@ fn main() {
         Some("mgr") => mgr::main(&args[2..]),
         Some("world") => world::main(&args[2..]),
         Some("leak") => leak::main(&args[2..]),
+        Some("atrest") => atrest::main(&args[2..]),
         _ => {
             eprintln!("usage: vh store [--file] < ops");
             2
